@@ -305,7 +305,7 @@ var zeroFree = false
 
 func genExpr(t *rapid.T, depth int) string {
 	ws := func() string {
-		return rapid.SampledFrom([]string{"", "", "", " ", "  ", "\t", "\n", " \n ", "\r\n", "\f"}).Draw(t, "ws")
+		return rapid.SampledFrom([]string{"", "", "", " ", "  ", "\t", "\n", " \n ", "\r\n", "\f", " \f", " \t", "\f ", "\t\f\n"}).Draw(t, "ws")
 	}
 	lit := func() string {
 		k := rapid.IntRange(0, 11).Draw(t, "lk")
